@@ -393,13 +393,18 @@ impl<K, V, S> LruCache<K, V, S> {
     /// assert_eq!(0, cache.current_size());
     /// ```
     pub fn clear(&mut self) {
-        for entry in self.table.drain() {
-            unsafe { entry.drop(); }
-        }
+        // Reset size and list before anything is dropped: should the
+        // destructor of a key or value panic, the table is still emptied (by
+        // the drain), and neither the list nor the size may keep referring to
+        // entries that are gone. Entries not yet dropped are leaked then.
 
         self.current_size = 0;
         self.seal.get_mut().next = self.seal;
         self.seal.get_mut().prev = self.seal;
+
+        for entry in self.table.drain() {
+            unsafe { entry.drop(); }
+        }
     }
 
     /// Creates an iterator over the entries (keys and values) contained in
